@@ -107,7 +107,7 @@ def check(run: Run, ctx) -> None:
     _parser.run(run, ctx, PROP, known, quick=0.5, thorough=4.0)
     # primary_response_key_order_invariant is about primaryA/primaryB: tie them to the generated code (return annotation, match arms)
     g.run_corr(run, ctx, "vf.corr.gencode", "GenCode (primary response selection, arms)", quick=0.35, thorough=2.0)
-    run.cov["rule"] = (run.cov.get("rule") or "") + ("[metamorphic e2e] per seeded document: renderings {JSON, YAML block, YAML flow} must give byte-identical trees; YAML with integer status keys the "
+    run.cov["rule"] = (run.cov.get("rule") or "") + ("[metamorphic e2e] per seeded document: renderings {JSON, YAML block, YAML flow, YAML with merge keys (<<: *anchor)} must give byte-identical trees; YAML with integer status keys the "
                        "same manifest; 2 random permutations of schemas/paths/properties and 2 random permutations of the key order of EVERY mapping (path items, responses, content, components.parameters, ...) the same manifest (models->fields, clients->signatures); every third document shares components.parameters through $ref, two thirds declare several 2xx responses with different bodies. Distinct by document; non-trivial when >=2 schemas and >=2 operations")
     cases = []
     for i in range(ctx.budget(14, 120)):
@@ -115,7 +115,7 @@ def check(run: Run, ctx) -> None:
         o = gs.Opts(mainstream=True, max_ops=4, always_opid=(i % 2 == 0), prefix_names=(i % 7 == 6), streaming=False,
                     component_params=(i % 3 == 1), multi_2xx=(i % 3 != 0))
         doc = gs.gen_spec(r, o)
-        variants = {"json": {"doc": doc, "fmt": "json"}, "yaml": {"doc": doc, "fmt": "yaml"}, "yamlflow": {"doc": doc, "fmt": "yaml-flow"},
+        variants = {"json": {"doc": doc, "fmt": "json"}, "yaml": {"doc": doc, "fmt": "yaml"}, "yamlflow": {"doc": doc, "fmt": "yaml-flow"}, "yamlmerge": {"doc": doc, "fmt": "yaml-merge"},
                     "yamlint": {"doc": to_int_status_keys(doc), "fmt": "yaml"},
                     "perm1": {"doc": permute(doc, r), "fmt": "json"}, "perm2": {"doc": permute(doc, r), "fmt": "json"},
                     "keys1": {"doc": permute_keys(doc, r), "fmt": "json"}, "keys2": {"doc": permute_keys(doc, r), "fmt": "yaml"}}
@@ -133,7 +133,7 @@ def check(run: Run, ctx) -> None:
             run.dist("generation", "rejected")
             continue
         fails = []
-        for v in ("yaml", "yamlflow"):
+        for v in ("yaml", "yamlflow", "yamlmerge"):
             o = res.get(v, {})
             if not o.get("gen_ok"):
                 fails.append(("rendering-rejected", f"{v}: {o.get('gen_error')}"))
